@@ -95,6 +95,22 @@ CATALOGUE = [
     ('c12_continuation_dt_raw_value', 'C12', S,
      "            self._time_integration(time_discretization=time_discretization)\n",
      "            self._time_integration(time_discretization=time_discretization if len(self.__powertrain.time) < 3 or self.__powertrain.time[1].unit == time_discretization.unit else TimeInterval(time_discretization.value, self.__powertrain.time[1].unit))\n"),
+    # ---- C16
+    ('c16_checked_before_compute', 'C16', S,
+     "            self._time_integration(time_discretization=time_discretization)\n            self._compute_powertrain_variables(motor_control=motor_control)\n            if stop_condition is not None:\n                if stop_condition.check_condition():\n                    break\n",
+     "            if stop_condition is not None:\n                if stop_condition.check_condition():\n                    self.__powertrain.time.pop()\n                    break\n            self._time_integration(time_discretization=time_discretization)\n            self._compute_powertrain_variables(motor_control=motor_control)\n"),
+    ('c16_checked_every_second_step', 'C16', S,
+     "            if stop_condition is not None:\n                if stop_condition.check_condition():",
+     "            if stop_condition is not None and k % 2 == 0:\n                if stop_condition.check_condition():"),
+    ('c16_never_stops', 'C16', S,
+     "                if stop_condition.check_condition():\n                    break\n",
+     "                if stop_condition.check_condition():\n                    pass\n"),
+    ('c16_ge_is_gt', 'C16', 'gearpy/utils/stop_condition/operator.py',
+     "        return sensor_value >= threshold\n",
+     "        return sensor_value > threshold\n"),
+    ('c16_tachometer_reads_acceleration_sign', 'C16', 'gearpy/sensors/tachometer.py',
+     "            return self.__target.angular_speed\n",
+     "            return abs(self.__target.angular_speed)\n"),
 ]
 
 
